@@ -165,6 +165,10 @@ func (f *compressFilter) Compress(cfg *redis.Compression, command string, resp *
 		if uint32(len(r.Text)) < cfg.Threshold {
 			continue
 		}
+		// already compressed, e.g. the request is sent again after a redirection.
+		if bytes.HasPrefix(r.Text, []byte(cpsMagicNumber)) {
+			continue
+		}
 		r.Text = f.compress(r.Text, cfg.Algorithm)
 		resp.Array[i] = r
 	}
